@@ -21,7 +21,8 @@ def run(chk, replay=None):
         payloads = []
         for h in hs:
             k = rng.choice([0, 1, 3, 40 if th else 12]) if i < 5 else rng.choice([1, 2, 3])
-            data = b''.join(rng.choice(pool) + b'\n' for _ in range(k))
+            data = b''.join((rng.choice(pool) if rng.random() < 0.8 else rng.choice([b'', b'', b'   ', b'not json'])) + b'\n' for _ in range(k + (2 if i >= 3 else 0)))
+            if i == 2: data = pool[0] + b'\n\n' + pool[1] + b'\n' + pool[2] + b'\n\n\n' + pool[0] + b'\n'     # rotated segments separated by blank lines
             payloads.append((data, streamlib.gz_bytes(data, members=rng.choice([1, 1, 3]))))
         window = rng.choice([None, None, (1700000000, 1700003600), (5, 6)])
         cfg = rng.choice([Cfg(), Cfg(nums=True, nss=True), Cfg(repl='ZZ', ips=True)])
